@@ -1,5 +1,10 @@
 SPECIFICATION Spec
-CONSTANT Direct = FALSE
-INVARIANTS TypeOK FileNeverCorrupt Completes Emit
+CONSTANTS
+  K = 3
+  Size <- Len3
+  MaxStores = 3
+  Direct = FALSE
+  Trunc = TRUE
+INVARIANTS TypeOK FileNeverCorrupt Emit
 PROPERTIES AbortKeepsOld OnlyOldOrNew
 CHECK_DEADLOCK FALSE
